@@ -31,8 +31,18 @@ def mk (P : Prims PTerm) (a g : TL) (ins outs : List Var) (simp : Bool) := Alg.m
 
 /-- `PolyhedralTerm.rename_variable` -/
 def renameTerm (t : PTerm) (s d : Var) : PTerm :=
-  if t.containsVar s then PTerm.mk' ((t.coeffs.filter (fun p => p.1 != s)) ++ [(d, t.coeff s)]) t.const else t
+  if t.containsVar s then
+    -- `variables[d] += variables[s]` then `remove_variable(s)`: for `s = d` the variable disappears altogether
+    if s = d then t.remove s
+    else PTerm.mk' ((t.coeffs.filter (fun p => p.1 != s)) ++ [(d, t.coeff s)]) t.const
+  else t
 
 def rename (P : Prims PTerm) (c : Contract PTerm) (s d : Var) := Alg.rename PTerm.vars P renameTerm c s d
+
+/-- `PolyhedralIoContract.rename_variables`: a copy, then the mappings one after the other -/
+def renameAll (P : Prims PTerm) (c : Contract PTerm) (ms : List (Var × Var)) : Except Err (Contract PTerm) :=
+  match Alg.copy PTerm.vars P c with
+  | .error e => .error e
+  | .ok c0 => ms.foldlM (fun acc m => rename P acc m.1 m.2) c0
 
 end PolyAlg
